@@ -468,25 +468,33 @@ class JSRegExp(JSObject):
 
     @property
     def lastIndex(self) -> int:
-        return self.get("lastIndex") or 0
+        """lastIndex as the matcher reads it: the script may have stored any
+        value, the matcher starts at ToLength(lastIndex)."""
+        return max(0, to_integer(self.get("lastIndex")))
 
     @lastIndex.setter
     def lastIndex(self, value: int):
         self.set("lastIndex", value)
         self._internal.lastIndex = value
 
+    def _store_last_index(self) -> None:
+        """Write the matcher's lastIndex back. Only global and sticky regexes
+        have it written; the others keep whatever the script stored."""
+        if self._internal._global or self._internal._sticky:
+            self.lastIndex = self._internal.lastIndex
+
     def test(self, string: str) -> bool:
         """Test if the pattern matches the string."""
         self._internal.lastIndex = self.lastIndex
         result = self._internal.test(string)
-        self.lastIndex = self._internal.lastIndex
+        self._store_last_index()
         return result
 
     def exec(self, string: str):
         """Execute a search for a match."""
         self._internal.lastIndex = self.lastIndex
         result = self._internal.exec(string)
-        self.lastIndex = self._internal.lastIndex
+        self._store_last_index()
 
         if result is None:
             return NULL
